@@ -14,7 +14,7 @@ import exe_lib as X
 
 THEOREMS = ['C19_no_panic', 'C19_total', 'C19_no_panic_refuted', 'C19_no_panic_refuted_release',
             'C19_le_roundtrip', 'C19_field_roundtrip', 'C19_field_frame', 'C19_section_name_is_code',
-            'C19_elf_roundtrip', 'C19_elf_preserves_partial', 'C19_pe_roundtrip', 'C19_pe_sections',
+            'C19_elf_roundtrip', 'C19_elf_preserves', 'C19_pe_roundtrip', 'C19_pe_sections',
             'C19_example_elf', 'C19_example_pe']
 
 NAME = X.NAME
